@@ -493,6 +493,8 @@ class Span:
     def abs_binop(self, op, other, reflected):
         if isinstance(op, ast.Div) and not reflected and isinstance(other, (int, float, Fr)):
             return Quot(Fr(self.v) / Fr(str(other) if isinstance(other, float) else other))
+        if isinstance(op, (ast.FloorDiv, ast.Mod)) and not reflected and isinstance(other, int) and not isinstance(other, bool) and other > 0 and isinstance(self.v, int):
+            return self.v // other if isinstance(op, ast.FloorDiv) else self.v % other          # whole bases: an exact integer
         raise Undecided(f"span arithmetic {type(op).__name__}")
 
     def abs_compare(self, op, other, reflected):
